@@ -29,8 +29,39 @@ WEAK = {
     "RejectNotBlacklisted": "NeverReused",
     "FormatNotBlacklisted": "NeverReused",
     "NoSyncerLevelCheck": "NeverReused",
+    "RemovePeerClearsBlacklist": "NeverReused",
+    "RemovePeerClearsBlacklist2": "NeverReused",
     "LateChunkFromRejectedSender": "NeverReused",
 }
+
+
+def scenario_rejected_peer_returns():
+    """A rejected sender disconnects, reconnects and advertises a better snapshot; on correct code the
+    advertisement is refused and the run ends with 'no snapshots' (the rest does not apply)."""
+    s1 = {"h": 2, "f": 1, "n": 2, "hash": "P:hashA", "meta": "P:metaA"}
+    s2 = {"h": 3, "f": 1, "n": 1, "hash": "P:hashC", "meta": "P:metaC"}
+    ok = {"op": "Provider", "ans": "ok"}
+    out = []
+    for how in ("apply", "offer"):
+        st = [{"op": "AddSnapshot", "p": "pB", "s": s1}, {"op": "Start"}, dict(ok)]
+        if how == "apply":
+            st += [{"op": "Offer", "v": "accept"}, dict(ok), dict(ok),
+                   {"op": "Arrive", "p": "pB", "i": 0, "b": "b0", "kind": "ok"},
+                   {"op": "Apply", "v": "accept", "rf": [], "rs": ["pB"]},
+                   {"op": "RemovePeer", "p": "pB"}, {"op": "AddSnapshot", "p": "pB", "s": s2},
+                   {"op": "Arrive", "p": "pA", "i": 1, "b": "a1", "kind": "ok"},
+                   {"op": "Apply", "v": "reject_snapshot", "rf": [], "rs": []}]
+        else:
+            st += [{"op": "RemovePeer", "p": "pA"},          # an unknown peer disconnects: nothing happens
+                   {"op": "Offer", "v": "reject_sender"},
+                   {"op": "RemovePeer", "p": "pB"}, {"op": "AddSnapshot", "p": "pB", "s": s2}]
+            # SyncAny(0) has already returned 'no snapshots' on correct code; a second syncer life is not modelled
+        st += [dict(ok), {"op": "Offer", "v": "accept"}, dict(ok), dict(ok), {"op": "FetcherAllocate"},
+               {"op": "Request", "i": 0, "p": "pB"}, {"op": "Arrive", "p": "pB", "i": 0, "b": "b9", "kind": "ok"},
+               {"op": "Apply", "v": "accept", "rf": [], "rs": []},
+               {"op": "Info", "info": {"hash": "T:ah3", "height": 3, "ver": 13}}]
+        out.append({"id": "attack/scenario_rejected_peer_returns_" + how, "steps": st})
+    return out
 
 
 # ------------------------------------------------------------------ TLC behaviours -> schedules
@@ -282,7 +313,7 @@ def run(ctx, skip_exhaustive=False):
             ("C14_chunks.cfg", "g_chunks", {"NChunks1": 2, "MaxArrive": 3, "MaxBad": 1}),
             ("C14_chunks.cfg", "g_chunks3", {"NChunks1": 3, "MaxArrive": 3, "MaxBad": 1}),
             ("C14_pool.cfg", "g_pool", {"MaxChurn": 2, "MaxBad": 1}),
-            ("C14_gpool.cfg", "g_pool2", {"MaxBad": 2}),
+            ("C14_gpool.cfg", "g_pool2", {"MaxChurn": 2, "MaxBad": 1}),
             ("C14_twin.cfg", "tw_twin", {"MaxChurn": 2, "MaxBad": 1}),
             ("C14_fetch.cfg", "g_fetch", {"Fetchers": 2, "MaxArrive": 2, "MaxBad": 1}),
         ]
@@ -293,7 +324,7 @@ def run(ctx, skip_exhaustive=False):
         return graph_scheds(ctx, cfg, label, 1500 if quick else 3000)
 
     graph_res = list(pool.map(graph, graphs))
-    scheds = list(attack)
+    scheds = list(attack) + scenario_rejected_peer_returns()
     graph_states = 0
     twin_states = 0
     for (base, label, _c), (r, nstates, ss) in zip(graphs, graph_res):
